@@ -179,6 +179,9 @@ impl Directive {
             Directive::Equ => {
                 if let DirectiveOps::Assign(name, value) = opts {
                     if let Expr::Ident(name) = name {
+                        if context.common_context.exist(&name.to_lowercase()) {
+                            bail!("Identifier {} is used twice, {}", name, point);
+                        }
                         context.common_context.set_equ(name.clone(), value.clone());
                     }
                 } else {
